@@ -9,6 +9,7 @@ CONSTANTS K = 2
           MaxClock = 1000000
           LibFoldersInKey = TRUE
           Beyond = {}
+          OptionValuesCompared = TRUE
           FreshLibHandles = TRUE
 INIT Init
 NEXT Next
@@ -16,6 +17,7 @@ VIEW View
 INVARIANT TypeOK
 INVARIANT ClockInv
 INVARIANT ResultIsFresh
+PROPERTY ResultIsFreshAct
 INVARIANT HitImpliesFresh
 PROPERTY EditInvalidates
 PROPERTY TransferLeavesValidCache
